@@ -15,6 +15,9 @@ type rtGen struct {
 	nyctAlerts   bool // Mercury extension data, elevator ids, lmm: prefixes
 	alertsOnly   bool
 	zones        []string
+	// conflict-free messages may express the association with an id-less vehicle by a trip update whose vehicle
+	// descriptor is present but empty (inside C04's quantifier, outside C02's)
+	emptyTUVehicle bool
 }
 
 var allZones = []string{"nil", "UTC", "fixed:19800", "fixed:-12600", "fixed:3600", "fixed:-18000", "fixed:28800", "America/New_York", "Europe/London", "Asia/Kolkata", "Australia/Lord_Howe"}
@@ -379,6 +382,16 @@ func (g *rtGen) alert(r *Rng, k int, trips []map[string]any, base int64) (string
 	for i := 0; i < ns; i++ {
 		sels = append(sels, g.selector(r, trips))
 	}
+	if r.P(1, 6) {
+		// an alert naming several trips that have no entity of their own (more trips than entities in a small message)
+		for j, m := 0, 2+r.Intn(7); j < m; j++ {
+			d := map[string]any{"tripId": bstr(fmt.Sprintf("only-in-alert-%d-%d", k, j))}
+			if r.P(1, 3) {
+				d["routeId"] = bstr(r.Pick([]string{"A", "B1", "Q44"}))
+			}
+			sels = append(sels, map[string]any{"trip": d})
+		}
+	}
 	a["informed"] = sels
 	if r.P(1, 2) {
 		a["cause"] = 1 + r.Intn(12)
@@ -513,14 +526,24 @@ func (g *rtGen) message(r *Rng, named bool) map[string]any {
 			for i, t := range trips {
 				v, paired := pair[i]
 				hasTU := r.P(3, 4)
-				if hasTU {
+				// an id-less vehicle can also come from the trip update itself: a vehicle descriptor that is
+				// present but identifies nothing (several of them outgrow any "one per vehicle position" bound)
+				viaTU := g.emptyTUVehicle && paired && v == -1 && r.P(1, 3)
+				if hasTU || viaTU {
 					tu := map[string]any{"trip": deepCopyJSON(t), "stus": g.stus(r, base)}
 					if paired && v >= 0 && r.P(2, 3) {
 						tu["vehicle"] = deepCopyJSON(vehs[v])
 					}
+					if viaTU {
+						if r.Bool() {
+							tu["vehicle"] = map[string]any{}
+						} else {
+							tu["vehicle"] = deepCopyJSON(emptyVehDescs[r.Intn(len(emptyVehDescs))])
+						}
+					}
 					add(map[string]any{"tripUpdate": tu})
 				}
-				if paired && v == -1 {
+				if paired && v == -1 && !viaTU {
 					vp := g.vehiclePosition(r, base)
 					vp["trip"] = deepCopyJSON(t)
 					if r.P(1, 3) {
